@@ -411,8 +411,11 @@ package core
 // Reading a property of a location does not touch the system's location cache (assumed frame; used by C17).
 //@ func (*Location).GetProp
 //@   modifies allbut(F:sys.CachedLocation.|F:sys.CachedLocations.|MD:string:*sys.CachedLocation|MV:string:*sys.CachedLocation|ML:string:*sys.CachedLocation)
+//@ ghost ctxLoc ref
 //@ func (*Context).SetLoc
 //@   modifies c.location
+//@   ghost-ensures ctxLoc == loc
+//@   also-modifies ctxLoc
 
 // ---- C14: script execution ----------------------------------------------------------------
 // otto (dependency) entry points: results unconstrained; ghost records of what they returned.
@@ -531,7 +534,8 @@ package core
 // DoAncestors, handed only to doAncestors, and the tree has no other map[string]bool; and they do not rename locations)
 //@ funcval (*Location).doAncestors.fn
 //@   ghost-ensures lastFnLoc == arg0 && ancErr == (old(ancErr) || result != nil)
-//@   also-modifies lastFnLoc, ancErr
+//@   ghost-ensures result == nil ==> ctxLoc == arg0
+//@   also-modifies lastFnLoc, ancErr, ctxLoc
 //@   modifies allbut(MD:string:bool|MV:string:bool|ML:string:bool|F:core.Location.Name)
 //@ iface LocationProvider.GetLocation
 //@   ghost-ensures ancErr == (old(ancErr) || result1 != nil)
@@ -1091,3 +1095,26 @@ package core
 //@ func RunJavascript$12
 //@   inline-ok
 //@   assert[C14.timeout_is_reported_as_an_error] at "return": err != nil && result == nil
+
+// ---- C09: the request context follows the location being worked on ------------------------------------------
+// Loading a parent points the context at the parent; every per-location search points it at the location it searches, the
+// walk visits the starting location last, so an inherited search or dispatch hands the context back pointing at the location
+// it was asked of (an action that then writes through the context writes THERE, not into an ancestor).
+// (the visitor's contract above - it leaves the context at the visited location - is assumed by the walk and proved of both
+// visitors)
+//@ func (*Location).searchFacts
+//@   ensures[C09.searchfacts_points_ctx_at_itself] ctxLoc == loc
+//@ func (*Location).searchRules
+//@   ensures[C09.searchrules_points_ctx_at_itself] ctxLoc == loc
+//@ func (*Location).searchFactsAncestors$1
+//@   ensures[C09.facts_visitor_points_ctx_at_visited] result == nil ==> ctxLoc == parent
+//@ func (*Location).searchRulesAncestors$1
+//@   ensures[C09.rules_visitor_points_ctx_at_visited] result == nil ==> ctxLoc == parent
+//@ func (*Location).doAncestors
+//@   ensures[C09.walk_leaves_ctx_at_the_location] result == nil ==> ctxLoc == loc
+//@ func (*Location).DoAncestors
+//@   ensures[C09.Walk_leaves_ctx_at_the_location] result == nil ==> ctxLoc == loc
+//@ func (*Location).searchFactsAncestors
+//@   ensures[C09.inherited_search_leaves_ctx_at_the_location] result1 == nil ==> ctxLoc == loc
+//@ func (*Location).searchRulesAncestors
+//@   ensures[C09.inherited_dispatch_leaves_ctx_at_the_location] result1 == nil ==> ctxLoc == loc
